@@ -19,6 +19,7 @@ type SolveResult struct {
 	Output  string
 	Tried   []string
 	Linearized bool
+	MaxPart float64 // slowest sub-query of a multi-part obligation
 }
 
 type solverSpec struct {
